@@ -45,6 +45,10 @@ Dry-runs on a scratch copy (VERIF_REPO=/var/tmp/mC09 ./check C09 quick), all aga
  M5 harmless: rename locals dest->target, rel->r2, callback params p->pp, mode->md -> exit 0, facts=regenerated.
  M7 equivalent but unrecognised: `!mode.IsDir()` -> `mode.IsRegular()` -> extractor exits 3 (facts unreadable),
     Expected schema + thorough correspondence (29683 cases) agree -> exit 0 with NOTE.
+ R2 (round-2 seed) hash.go: managed-symlink condition `!filepath.IsAbs(dest) && !filepath.IsAbs(path)` (in-root absolute destinations
+    fall into the system-tool branch) -> extractor reports linkCond = (.and (.not .absDest) (.not .absPath)) (fact difference, model
+    follows), C09_facts_ok breaks, failing input `pair 2457 74 l24572f78 l24572f79` (two links into the real root, destination
+    files of equal contents, same hash) -> exit 1, violation-unexplained-collision-ll.
  M8 hash.go ensureRelative: TrimLeft(…, "/") -> TrimPrefix(…, "/") -> facts unreadable, thorough correspondence finds 20
     disagreements (root "/R", dest "/R//a") -> exit 1, VIOLATION correspondence-broken no-failing-input-found.
 """
